@@ -25,8 +25,8 @@ for i in $(seq 0 $((N-1))); do
   while read -r name; do
     python3 - /verif/seeded/$name/meta.json /tmp/px/verif$i/seeded/$name/meta.json $name <<'PY'
 import json,sys
-old=json.load(open(sys.argv[1]))['detected_by'].get('signatures',[])
-new=json.load(open(sys.argv[2]))['detected_by'].get('signatures',[])
+old=json.load(open(sys.argv[1])).get('detected_by',{}).get('signatures',[])
+new=json.load(open(sys.argv[2])).get('detected_by',{}).get('signatures',[])
 key=lambda s: ':'.join(s.split(':')[:2])
 if new and old and not (set(map(key,old)) & set(map(key,new))):
     print("OTHER-SIGNATURES %s: recorded %s, now %s - run it alone (seedrun.sh)" % (sys.argv[3], old, new))
